@@ -2,13 +2,13 @@
   Model of attribute-set validation and decoding:
 
     xmlschema/validators/attributes.py
-        XsdAttributeGroup.raw_decode            (659-734)
-        XsdAttributeGroup.iter_required         (631-635)
-        XsdAttributeGroup.iter_value_constraints(637-648)
+        XsdAttributeGroup.raw_decode            (667-747)
+        XsdAttributeGroup.iter_required         (638-642)
+        XsdAttributeGroup.iter_value_constraints(644-656)
         XsdAttribute.raw_decode                 (241-294, decision part: fixed / type validity)
     xmlschema/validators/wildcards.py
-        XsdAnyAttribute.raw_decode              (669-695)
-        Xsd11AnyAttribute.is_matching           (832-853)   (via Wildcard.allows)
+        XsdAnyAttribute.raw_decode              (712-738)
+        Xsd11AnyAttribute.is_matching           (867-888)   (via Wildcard.allows)
 
   No Mathlib import: this file is linked into the native driver.
 
@@ -18,14 +18,19 @@
   Names are expanded names `QN` (the Python strings '{ns}local' / 'local').
   Simple-type validity and value-space equality are parameters (`Sem`): they belong to C02.
 
-  `legacy = true` reproduces two clauses of the pinned code that treat a `use="prohibited"`
-  declaration as a live declaration (finding C03-F1):
-     * line 709: the "prohibited" error is skipped when the declaration carries `fixed`,
-       and a prohibited attribute admitted by the wildcard is validated against the prohibited
-       declaration instead of under the wildcard's processContents;
-     * lines 638-648: the fixed/default value of a prohibited declaration is injected.
-  `legacy = false` is the repaired algorithm (notes/fixes/C03-prohibited-use.patch): a prohibited
-  use corresponds to no attribute use at all.
+  `Opts.legacy = false` IS the port of the code as it is now (fix commits 9474062 and 365354e): a
+  `use="prohibited"` declaration corresponds to no attribute use at all — it injects no fixed/default
+  value (attributes.py:637-652) and an attribute that meets it is admitted only through the attribute
+  wildcard, under the wildcard's processContents (attributes.py:709-719).  Every property theorem is
+  about `legacy = false`.
+  `Opts.legacy = true` selects the step as it was BEFORE those commits (finding C03-F1, fixed): the
+  "prohibited" error was skipped when the declaration carried `fixed`, a prohibited attribute admitted
+  by the wildcard was validated against the prohibited declaration, and the fixed/default value of a
+  prohibited declaration was injected.  It is kept only so that the two `_counterexample` theorems of
+  Props/C03.lean can state what the old step did (the field is also read by the C14 model, which uses
+  `legacy = false` only).
+  Concrete simple-type semantics for the catalogue of the run: Model/AttrTypes.lean; attribute groups
+  of derived complex types, group composition, XSD 1.1 default attributes, ID uses: Model/AttrDeriv.lean.
 -/
 import XsVerif.Model.Wildcard
 
